@@ -1,16 +1,21 @@
 """C13 — results depend only on arguments: no hidden state, no operand mutation.
 
+The models executed here are the models of the REPAIRED code (fixes/mprocess-proj-eq-var-mutates-argument,
+pgd-cached-func-proj, sparse-matrix-basis-writable, vectorized-sparse-basis-writable, c12-se-*, c12-re-*); the machines
+"as coded before fix ..." are only used to NAME a defect when the implementation deviates from the repaired model.
+
 Sub-checks
   cache    CompositeSystem lazy tables: random get/delete sequences, the Coq cache machine (c13.cache_run) is
            executed alongside and compared with the private attributes (None/filled AND object identity), every
            returned table is compared with the table of a fresh system (the invariant of the theorem)
   heap     MProcess.calc_proj_eq_constraint_with_var / convert_var_to_hss against the array-heap model: result,
            contents of the ARGUMENT afterwards, aliasing (buffer, offset); other *_with_var functions: argument untouched
-  basis    matrix bases are not writable, copies are independent of their originals
+  basis    matrix bases (dense, sparse, vectorised) are not writable, do not share objects with the caller,
+           copies are independent of their originals
   loss     loss / algorithm objects re-configured over several datasets and weighting modes: the Coq configuration
            machines predict which dataset / weights / projection are in effect; compared numerically (c13.loss_value,
-           c13.invw) and against fresh objects (history independence)
-  witness  the witnesses of the ..._refuted theorems replayed on the implementation
+           c13.invw; relative entropy: harness-side formula) and against fresh objects (history independence)
+  witness  the witnesses of the ..._refuted theorems (code before the fixes) replayed: they must NOT reproduce
   history  random interleavings over a shared pool of objects of all types; every result is compared with the same
            call on fresh deep copies in a fresh world, byte snapshots of every pool object before/after
 """
@@ -25,9 +30,16 @@ TOL = 1e-10
 # ------------------------------------------------------------------------------------------------ sites of known defect classes
 S_GENERIC = "WeightedProbabilityBasedSquaredError._set_weights_by_mode"
 S_FAST = "StandardQTomographyBasedWeightedProbabilityBasedSquaredError._calc_extend_weight_matrix"
+S_RGEN = "WeightedRelativeEntropy._sets_weight_by_mode"
+S_RFAST = "StandardQTomographyBasedWeightedRelativeEntropy._calc_extend_weights"
 S_ALGO = "ProjectedGradientDescent.set_constraint_from_standard_qt_and_option"
 S_MPROC = "MProcess.calc_proj_eq_constraint_with_var"
 S_SPARSE = "SparseMatrixBasis.__init__"
+S_VECT = "VectorizedMatrixBasis.__init__"
+# signature of the defect that each missing repair of the squared-error losses produces (bit of the machine flags)
+FIX_SIG = {1: (S_GENERIC, "identity-mode-keeps-previous-weights", "c12-se-identity-mode-reset"),
+           2: (S_GENERIC, "alias-mode-unbiased_inverse_covariance-ignored", "c12-se-alias-mode"),
+           4: (S_FAST, "extended-weights-stale", "c12-se-fast-extended-weights")}
 
 
 def q():
@@ -124,6 +136,10 @@ def freeze(o, csid):
     Q = q()
     if isinstance(o, np.ndarray):
         return {"k": "nd", "a": np.array(o)}
+    if isinstance(o, Q["md"].MultinomialDistribution):
+        return {"k": "MD", "ps": np.array(o.ps), "shape": tuple(int(x) for x in o.shape), "eps": o.eps_zero}
+    if isinstance(o, Q["se"].StateEnsemble):
+        return {"k": "Ens", "cs": csid, "states": [freeze(x, csid) for x in o.states], "pd": freeze(o.prob_dist, None), "eps": o.eps_zero}
     cfg = tuple(getattr(o, a) for a in CFG)
     if isinstance(o, Q["st"].State):
         return {"k": "State", "cs": csid, "arrs": [np.array(o.vec)], "cfg": cfg}
@@ -140,6 +156,10 @@ def thaw(fr, world):
     Q = q()
     if fr["k"] == "nd":
         return np.array(fr["a"])
+    if fr["k"] == "MD":
+        return Q["md"].MultinomialDistribution(np.array(fr["ps"]), shape=tuple(fr["shape"]), eps_zero=fr["eps"])
+    if fr["k"] == "Ens":
+        return Q["se"].StateEnsemble([thaw(x, world) for x in fr["states"]], thaw(fr["pd"], world), eps_zero=fr["eps"])
     c = world.csys(fr["cs"])
     kw = dict(zip(CFG, fr["cfg"]))
     arrs = [np.array(a) for a in fr["arrs"]]
@@ -215,9 +235,12 @@ class CacheTracker:
 
     def apply(self, codes, what, case):
         """codes: model ops just performed on the implementation. returns False on disagreement"""
-        m = self.ctx.get_model()
-        out = [int(v) for v in m.call("c13.cache_run", self.gens + [self.tick] + list(codes))]
-        new_gens, new_tick = out[-10:-1], out[-1]
+        if codes:
+            m = self.ctx.get_model()
+            out = [int(v) for v in m.call("c13.cache_run", self.gens + [self.tick] + list(codes))]
+            new_gens, new_tick = out[-10:-1], out[-1]
+        else:                                # no operation on this system: nothing may have changed
+            new_gens, new_tick = list(self.gens), self.tick
         ok = True
         for i, s in enumerate(SLOTS):
             o = getattr(self.c, s)
@@ -364,7 +387,8 @@ def chk_heap(ctx, case):
     before = var.copy()
     key = (case["sys"], on_para, tuple(case["var"]), case["fn"])
     if case["fn"] == "proj_eq":
-        st, val = m.try_call("c13.mp_proj_eq", [d2, int(on_para), 0], [float(x) for x in before])
+        # the model of the repaired code (flag 1): same values, argument untouched, result in a new buffer
+        st, val = m.try_call("c13.mp_proj_eq", [d2, int(on_para), 1], [float(x) for x in before])
         try:
             res = Q["mp"].MProcess.calc_proj_eq_constraint_with_var(c, var, on_para_eq_constraint=on_para)
             impl = ("ok", res)
@@ -378,18 +402,19 @@ def chk_heap(ctx, case):
         n = int(val[1]); res_m = [float(x) for x in val[2:2 + n]]; arg_m = [float(x) for x in val[2 + n:]]
         if not flow.allclose(list(res), res_m, 1e-9):
             ctx.violation("heap", S_MPROC, "heap-model-mismatch:value", "result differs from the model: %s vs %s" % (list(res)[:6], res_m[:6]), case)
-        if not flow.allclose(list(var), arg_m, 1e-9):
-            ctx.violation("heap", S_MPROC, "heap-model-mismatch:argument-contents",
-                          "contents of the argument after the call differ from the heap model: %s vs %s" % (list(var)[:6], arg_m[:6]), case)
         if np.shares_memory(res, var) != (int(val[0]) == 0):
             ctx.violation("heap", S_MPROC, "heap-model-mismatch:aliasing", "result aliasing differs from the model", case)
-        if not np.array_equal(var, before):
-            ctx.violation("heap", S_MPROC, "mutates-argument",
-                          "calc_proj_eq_constraint_with_var(on_para_eq_constraint=%s) overwrote its argument: %s -> %s" % (on_para, [round(float(x), 6) for x in before[:5]], [round(float(x), 6) for x in var[:5]]), case)
-        # the fixed model describes the meaning: same result, argument untouched
-        valx = m.call("c13.mp_proj_eq", [d2, int(on_para), 1], [float(x) for x in before])
-        if not flow.allclose([float(x) for x in valx[2:2 + n]], res_m, 1e-12):
-            ctx.violation("heap", S_MPROC, "heap-model-mismatch:fixed-model", "fixed and faithful model return different values", case)
+        if not np.array_equal(var, before):               # the repaired model leaves the argument as it was (arg_m == before)
+            # which model explains the contents of the argument now?  (flag 0: as coded before the fix)
+            val0 = m.call("c13.mp_proj_eq", [d2, int(on_para), 0], [float(x) for x in before])
+            arg0 = [float(x) for x in val0[2 + int(val0[1]):]]
+            if flow.allclose(list(var), arg0, 1e-9):
+                ctx.violation("heap", S_MPROC, "mutates-argument",
+                              "calc_proj_eq_constraint_with_var(on_para_eq_constraint=%s) overwrote its argument: %s -> %s (the in-place update went through views of var, "
+                              "as in the model of the code before fix mprocess-proj-eq-var-mutates-argument)" % (on_para, [round(float(x), 6) for x in before[:5]], [round(float(x), 6) for x in var[:5]]), case)
+            else:
+                ctx.violation("heap", S_MPROC, "heap-model-mismatch:argument-contents",
+                              "contents of the argument after the call fit neither heap model: %s -> %s" % ([round(float(x), 6) for x in before[:5]], [round(float(x), 6) for x in var[:5]]), case)
     elif case["fn"] == "var_to_hss":
         st, val = m.try_call("c13.mp_var_to_hss", [d2, int(on_para)], [float(x) for x in before])
         try:
@@ -481,43 +506,93 @@ def sub_heap(ctx):
 
 
 # ------------------------------------------------------------------------------------------------ bases, copies
+def _elem_arrays(e):
+    """the numpy buffers behind one basis element (dense array, or data / indices / indptr of a csr matrix)"""
+    return [e] if isinstance(e, np.ndarray) else [e.data, e.indices, e.indptr]
+
+
+def _try_writes(e):
+    """every way of writing into a basis element in place; each must be refused"""
+    done = []
+    import warnings as _w
+    with _w.catch_warnings():
+        _w.simplefilter("ignore")
+        if isinstance(e, np.ndarray):
+            attempts = [("e[0] = e[0] + 1", lambda: e.__setitem__(0 if e.ndim == 1 else (0, 0), e.flat[0] + 1.0)),
+                        ("e += 1", lambda: e.__iadd__(1.0))]
+        else:
+            nz = tuple(int(v[0]) for v in e.nonzero()) if e.nnz else (0, 0)
+            dense = e.toarray()
+            zeros = np.argwhere(dense == 0)
+            zpos = tuple(int(v) for v in zeros[0]) if len(zeros) else None
+            attempts = [("e.data[0] += 1", lambda: e.data.__setitem__(0, e.data[0] + 1.0)),
+                        ("e[i, j] = v at a stored entry", lambda: e.__setitem__(nz, 7.0)),
+                        ("e *= 2", lambda: e.__imul__(2.0))]
+            if zpos is not None:
+                attempts.append(("e[i, j] = v at a structural zero", lambda: e.__setitem__(zpos, 7.0)))
+        for name, f in attempts:
+            try:
+                f()
+                done.append(name)
+            except (ValueError, TypeError, RuntimeError, NotImplementedError):
+                pass
+    return done
+
+
 def chk_basis(ctx, case):
     Q = q()
     mb = Q["mb"]
     kind = case["kind"]
-    if kind == "getter":
+    shared = []
+    if kind in ("getter", "getter_vect"):
         b = getattr(mb, case["name"])(*case.get("args", []))
         site = "matrix_basis." + case["name"]
+        if kind == "getter_vect":
+            b = b.to_vect()
+            site = S_VECT
+    elif kind == "sparse_from":
+        # a SparseMatrixBasis built by the user from a list of dense arrays / of csr matrices / from a MatrixBasis
+        import scipy.sparse as sp
+        src = getattr(mb, case["name"])(*case.get("args", []))
+        given = [np.array(x) for x in src] if case["of"] == "dense" else [sp.csr_matrix(np.array(x)) for x in src] if case["of"] == "csr" else src
+        b = mb.SparseMatrixBasis(given)
+        site = S_SPARSE
+        if case["of"] != "basis":
+            if b.basis is given:
+                shared.append("the list handed to the constructor IS the basis container")
+            if any(x is y for x in b for y in given):
+                shared.append("elements are the caller's objects")
+            if any(np.shares_memory(u, v) for x, y in zip(b, given) for u in _elem_arrays(x) for v in _elem_arrays(y)):
+                shared.append("elements share memory with the caller's arrays")
     else:
         w = World()
         c = w.csys((tuple(case["names"]), 0))
-        b = c.basis() if kind == "csys" else w.esys(case["names"][0]).basis
+        b = c.basis() if kind in ("csys", "vect") else w.esys(case["names"][0]).basis
         site = S_SPARSE if type(b) is mb.SparseMatrixBasis else "MatrixBasis.__init__"
-    ctx.count("basis", key=repr(case), label=type(b).__name__)
+        if kind == "vect":
+            b = b.to_vect()
+            site = S_VECT
+    ctx.count("basis", key=repr(case), label="%s %s" % (kind, type(b).__name__))
     if not isinstance(b.basis, tuple):
         ctx.violation("basis", site, "container-mutable", "basis container is %s, not a tuple" % type(b.basis).__name__, case)
+    if shared:
+        ctx.violation("basis", site, "shares-caller-objects", "; ".join(shared) + " - the caller can modify the basis afterwards", case)
     before = digest(b)
-    writable = []
+    writable, succeeded = [], []
     for i, e in enumerate(b):
-        arr = e if isinstance(e, np.ndarray) else e.data
-        if arr.flags.writeable:
+        if any(a.flags.writeable for a in _elem_arrays(e)):
             writable.append(i)
-        try:
-            if isinstance(e, np.ndarray):
-                e[0, 0] = e[0, 0] + 1.0
-            else:
-                e.data[0] = e.data[0] + 1.0
-        except (ValueError, TypeError, RuntimeError):
-            pass
+        succeeded += ["element %d: %s" % (i, n) for n in _try_writes(e)]
     changed = digest(b) != before
-    if writable or changed:
+    if writable or changed or succeeded:
         ctx.violation("basis", site, "elements-writable",
-                      "elements %s of the %s are writable; an in-place write %s the basis" % (writable[:4], type(b).__name__, "changed" if changed else "did not change"), case)
+                      "elements %s of the %s are writable; in-place writes that went through: %s; the basis %s" % (
+                          writable[:4], type(b).__name__, succeeded[:3], "changed" if changed else "did not change"), case)
     if kind == "csys" and changed:
-        # consequence (C13_cache_needs_immutable_basis_refuted): tables built afterwards differ from a fresh system's
+        # consequence (C13_cache_needs_immutable_basis): tables built afterwards differ from a fresh system's
         bad = [SLOTS[i] for i in (3, 6) if digest(GETTERS[i](c)) != fresh_table(tuple(case["names"]), i)]
         if bad:
-            ctx.note("writable sparse basis: after an in-place write the tables %s differ from a fresh system's (replays C13_cache_needs_immutable_basis_refuted)" % bad)
+            ctx.note("writable sparse basis: after an in-place write the tables %s differ from a fresh system's (C13_cache_needs_immutable_basis)" % bad)
 
 
 def chk_copy(ctx, case):
@@ -557,7 +632,13 @@ def sub_basis(ctx):
               ("get_gell_mann_basis", []), ("get_normalized_gell_mann_basis", []), ("get_generalized_gell_mann_basis", [1, 3]),
               ("get_normalized_generalized_gell_mann_basis", [1, 3])]]
     cases += [{"kind": "esys", "names": [0]}, {"kind": "esys", "names": [2]},
-              {"kind": "csys", "names": [0]}, {"kind": "csys", "names": [2]}, {"kind": "csys", "names": [0, 1]}]
+              {"kind": "csys", "names": [0]}, {"kind": "csys", "names": [2]}, {"kind": "csys", "names": [0, 1]},
+              {"kind": "vect", "names": [0]}, {"kind": "vect", "names": [2]}, {"kind": "vect", "names": [0, 1]},
+              {"kind": "sparse_from", "of": "dense", "name": "get_pauli_basis", "args": [1]},
+              {"kind": "sparse_from", "of": "csr", "name": "get_normalized_pauli_basis", "args": [1]},
+              {"kind": "sparse_from", "of": "csr", "name": "get_gell_mann_basis", "args": []},
+              {"kind": "sparse_from", "of": "basis", "name": "get_normalized_gell_mann_basis", "args": []}]
+    cases += [{"kind": "getter_vect", "name": n, "args": a} for n, a in [("get_normalized_pauli_basis", [1]), ("get_gell_mann_basis", [])]]
     ctx.sample("basis", cases[-1])
     ctx.run_cases("basis", chk_basis, cases)
     cc = [{"seed": ctx.rng.randrange(1 << 30)} for _ in range(ctx.n(3, 30))]
@@ -614,6 +695,13 @@ def make_pool(world, rng):
                 mm = {"Povm": m, "MProcess": mo}.get(cls, 1)
                 v = np.array([fr10(rng, -12, 12) for _ in range(var_len(cls, 2, on_para, mm))])
                 add("V%d%s%d" % (n, cls[0], on_para), "var", v, cid, cls=cls, on_para=on_para)
+    # joint distributions (unequal numbers of values per variable, one with a zero entry)
+    for key, shape in (("D0", (2, 3)), ("D1", (2, 2, 2)), ("D2", (4,))):
+        n = int(np.prod(shape))
+        wts = [rng.randint(1, 9) for _ in range(n)]
+        if key == "D2":
+            wts[rng.randrange(n)] = 0
+        add(key, "MD", Q["md"].MultinomialDistribution(np.array(wts, dtype=np.float64) / sum(wts), shape=shape), None)
     cid = ((2,), 0)
     c = world.csys(cid)
     for k in range(2):
@@ -646,11 +734,13 @@ UNARY = {
     "MProcess": ["is_sum_tp", "is_cp", "is_physical", "to_var", "to_stacked_vector", "to_povm", "calc_proj_eq_constraint",
                  "calc_proj_ineq_constraint", "calc_proj_physical", "copy", "generate_zero_obj", "generate_origin_obj"],
 }
+UNARY["MD"] = ["ps", "shape", "is_zero_dist", "eps_zero"]
+UNARY["Ens"] = ["prob_dist", "states", "eps_zero"]
 INDEXED = {"MProcess": ["to_choi_matrix", "to_choi_matrix_with_dict", "to_choi_matrix_with_sparsity", "to_kraus_matrices", "to_process_matrix", "hs"],
            "Povm": ["matrix", "vec"]}
 COMPOSE = [("Gate", "State"), ("Povm", "State"), ("Gate", "Gate"), ("Povm", "Gate"), ("MProcess", "State"), ("MProcess", "Gate"),
-           ("Gate", "MProcess"), ("Povm", "MProcess"), ("MProcess", "MProcess")]
-TENSOR = [("State", "State"), ("Gate", "Gate"), ("Povm", "Povm"), ("MProcess", "Gate"), ("Gate", "MProcess")]
+           ("Gate", "MProcess"), ("Povm", "MProcess"), ("MProcess", "MProcess"), ("Gate", "Ens"), ("Povm", "Ens"), ("MProcess", "Ens")]
+TENSOR = [("State", "State"), ("Gate", "Gate"), ("Povm", "Povm"), ("MProcess", "Gate"), ("Gate", "MProcess"), ("State", "Ens"), ("Ens", "State")]
 VARFN = ["calc_proj_eq_constraint_with_var", "calc_proj_ineq_constraint_with_var", "convert_var_to_stacked_vector",
          "func_calc_proj_eq_constraint_with_var", "func_calc_proj_ineq_constraint_with_var", "func_calc_proj_physical_with_var",
          "generate_from_var"]
@@ -664,9 +754,22 @@ def perform(world, desc, operands):
         f = getattr(operands[0], desc["m"])
         if desc["m"] == "calc_proj_physical":
             return f(max_iteration=200)
-        return f()
+        return f() if callable(f) else f                       # read-only properties of distributions / ensembles
     if t == "indexed":
         return getattr(operands[0], desc["m"])(desc["i"])
+    if t == "md":
+        o = operands[0]
+        if desc["m"] == "getitem":
+            return o[tuple(desc["idx"]) if isinstance(desc["idx"], list) else desc["idx"]]
+        if desc["m"] == "marginalize":
+            return o.marginalize(list(desc["idx"]))
+        if desc["m"] == "conditionalize":
+            return o.conditionalize(list(desc["idx"]), [tuple(v) if isinstance(v, list) else v for v in desc["vals"]] if desc.get("multi") else list(desc["vals"]))
+        if desc["m"] == "sampling":
+            return o.execute_random_sampling(desc["num"], desc["size"], random_generator=desc["seed"])
+        if desc["m"] == "state":
+            return o.state(tuple(desc["idx"]) if isinstance(desc["idx"], list) else desc["idx"])
+        raise KeyError(desc["m"])
     if t == "arith":
         a = operands[0]
         if desc["m"] == "add":
@@ -706,9 +809,32 @@ def choose_op(rng, pool, hist_world):
     """draw one operation descriptor applicable to the current pool"""
     keys = sorted(pool)
     by = lambda kind: [k for k in keys if pool[k]["kind"] == kind]
-    objs = [k for k in keys if pool[k]["kind"] in UNARY]
+    allobjs = [k for k in keys if pool[k]["kind"] in UNARY]
+    objs = [k for k in allobjs if pool[k]["kind"] not in ("MD", "Ens")]
     for _ in range(50):
         r = rng.random()
+        if r < 0.08:
+            # distributions and ensembles: indexed access, marginalisation, conditioning, seeded sampling
+            k = rng.choice([x for x in allobjs if pool[x]["kind"] in ("MD", "Ens")])
+            o = pool[k]["obj"]
+            if pool[k]["kind"] == "Ens":
+                if rng.random() < 0.5:
+                    return {"t": "unary", "m": rng.choice(UNARY["Ens"]), "a": [k]}
+                return {"t": "md", "m": "state", "idx": rng.randrange(len(o.states) + 1), "a": [k]}
+            shape = tuple(int(x) for x in o.shape)
+            nv = len(shape)
+            m = rng.choice(["getitem", "marginalize", "conditionalize", "conditionalize", "sampling", "unary"])
+            if m == "unary":
+                return {"t": "unary", "m": rng.choice(UNARY["MD"]), "a": [k]}
+            if m == "getitem":
+                idx = [rng.randrange(n) for n in shape] if rng.random() < 0.6 else rng.randrange(int(np.prod(shape)) + 1)
+                return {"t": "md", "m": m, "idx": idx, "a": [k]}
+            if m == "marginalize":
+                return {"t": "md", "m": m, "idx": sorted(rng.sample(range(nv), rng.randint(1, nv))) if rng.random() < 0.9 else [nv], "a": [k]}
+            if m == "conditionalize":
+                idx = sorted(rng.sample(range(nv), rng.randint(1, max(1, nv - 1))))
+                return {"t": "md", "m": m, "idx": idx, "vals": [rng.randrange(shape[i]) for i in idx], "a": [k]}
+            return {"t": "md", "m": m, "num": rng.choice([1, 10, 50]), "size": rng.randint(1, 3), "seed": rng.randrange(1000), "a": [k]}
         if r < 0.34:
             k = rng.choice(objs); kind = pool[k]["kind"]
             if kind in INDEXED and rng.random() < 0.3:
@@ -741,8 +867,9 @@ def choose_op(rng, pool, hist_world):
                 continue
             a = rng.choice(A)
             lim = 4 if "Gate" in (ka, kb) or "MProcess" in (ka, kb) else 6
+            dim_of = lambda o: o.states[0].dim if hasattr(o, "states") else o.dim
             B = [x for x in by(kb) if len(pool[x]["csid"][0]) == 1 and pool[x]["csid"][0] != pool[a]["csid"][0]
-                 and pool[x]["obj"].dim * pool[a]["obj"].dim <= lim]
+                 and dim_of(pool[x]["obj"]) * dim_of(pool[a]["obj"]) <= lim]
             if not B:
                 continue
             return {"t": "tensor", "a": [a, rng.choice(B)]}
@@ -773,6 +900,8 @@ def op_site(desc, pool):
     kinds = [pool[k]["kind"] if k in pool else "?" for k in desc["a"]]
     if t in ("unary", "indexed"):
         return "%s.%s" % (kinds[0], desc["m"])
+    if t == "md":
+        return "%s.%s" % ({"MD": "MultinomialDistribution", "Ens": "StateEnsemble"}.get(kinds[0], kinds[0]), {"getitem": "__getitem__", "sampling": "execute_random_sampling"}.get(desc["m"], desc["m"]))
     if t == "arith":
         return "%s.__%s__" % (kinds[0], {"div": "truediv"}.get(desc["m"], desc["m"]))
     if t == "compose":
@@ -830,8 +959,11 @@ def run_history(ctx, case, report=True):
         except Exception as e:
             res = e
         finally:
+            atol_after = Q["Settings"].get_atol()
             Q["Settings"].set_atol(atol0)
         rh = canon(res)
+        if atol_after != desc.get("atol", atol0):
+            fails.append((site, "mutates-global-settings", k, "op %d (%s) left Settings.atol at %r (was %r)" % (k, site, atol_after, desc.get("atol", atol0))))
         # ---- the same call on fresh deep copies in a fresh world
         fw = World()
         if frozen is None:
@@ -855,15 +987,18 @@ def run_history(ctx, case, report=True):
             if digest(ent["obj"]) != before[key]:
                 sig = "mutates-argument" if key in desc["a"] else "mutates-derived-object"
                 fails.append((site, sig, k, "op %d (%s) changed the value of pool object %s (%s)" % (k, site, key, "operand" if key in desc["a"] else "not an operand")))
-        for cid, c in world.cs.items():
-            if cid in bases and digest(c.basis()) != bases[cid]:
-                fails.append((site, "mutates-basis", k, "op %d (%s) changed the basis of composite system %s" % (k, site, cid)))
-        # ---- cache machine alongside (direct get/delete: exact step; everything else: the invariant)
-        for cid, c in list(world.cs.items()):
-            if cid not in trackers:
-                trackers[cid] = CacheTracker(ctx, c, "history", "system %s" % (cid,))
+        for cid2, c in world.cs.items():
+            if cid2 in bases and digest(c.basis()) != bases[cid2]:
+                fails.append((site, "mutates-basis", k, "op %d (%s) changed the basis of composite system %s" % (k, site, cid2)))
+        # ---- cache machine alongside (direct get/delete: exact step on THAT system, no step on the others;
+        #      everything else: resynchronise, the invariant is checked below)
+        for cid2, c in list(world.cs.items()):
+            if cid2 not in trackers:
+                trackers[cid2] = CacheTracker(ctx, c, "history", "system %s" % (cid2,))
         if desc["t"] == "cache":
-            trackers[cid].apply([desc["code"]], "op %d" % k, dict(case, ops=ops[:k + 1]))
+            op_cid = (tuple(desc["cs"][0]), desc["cs"][1])
+            for cid2, tr in trackers.items():
+                tr.apply([desc["code"]] if cid2 == op_cid else [], "op %d" % k, dict(case, ops=ops[:k + 1]))
         else:
             for cid2, tr in trackers.items():
                 tr.__init__(ctx, tr.c, "history", tr.label)       # resynchronise: other operations may fill tables
@@ -877,6 +1012,11 @@ def run_history(ctx, case, report=True):
         if isinstance(res, (Q["st"].State, Q["gt"].Gate, Q["pv"].Povm, Q["mp"].MProcess)) and len(pool) < 60:
             cid = world.register(res.composite_system)
             pool["r%d" % k] = dict(kind=type(res).__name__, obj=res, csid=cid)
+        elif isinstance(res, Q["md"].MultinomialDistribution) and len(pool) < 60:
+            pool["r%d" % k] = dict(kind="MD", obj=res, csid=None)
+        elif isinstance(res, Q["se"].StateEnsemble) and len(pool) < 60 and len(res.states) > 0:
+            cid = world.register(res.states[0].composite_system)
+            pool["r%d" % k] = dict(kind="Ens", obj=res, csid=cid)
         elif isinstance(res, np.ndarray) and desc["t"] == "varfn" and res.ndim == 1 and len(pool) < 60 and not desc["m"].startswith("convert"):
             v = pool[desc["a"][1]]
             pool["r%d" % k] = dict(kind="var", obj=res, csid=v["csid"], cls=v["cls"], on_para=v["on_para"])
@@ -904,9 +1044,6 @@ def shrink_history(ctx, case, ops, target):
             cur = cand
         i -= 1
     return cur
-
-
-KNOWN_EXPLAINED = {(S_MPROC, "mutates-argument"), ("MProcess.func_calc_proj_eq_constraint_with_var", "mutates-argument")}
 
 
 def chk_history(ctx, case):
@@ -973,7 +1110,10 @@ def loss_option(kind, mode, custom):
     from quara.loss_function.weighted_relative_entropy import WeightedRelativeEntropyOption as RO
     if kind in (0, 1):
         return GO(mode, weights=custom) if mode == "custom" else GO(mode)
-    return RO("identity")
+    return RO("custom", weights=custom) if mode == "custom" else RO("identity")
+
+
+MODE_CODE = {"identity": 0, "inverse_sample_covariance": 1, "inverse_unbiased_covariance": 2, "unbiased_inverse_covariance": 3}
 
 
 def model_weights(ctx, tag, datasets, customs):
@@ -997,122 +1137,159 @@ def model_value(ctx, qst, ds, W, var):
     if W is not None:
         qs += [float(x) for Wi in W for x in np.asarray(Wi).ravel()]
     out = [float(v) for v in m.call("c13.loss_value", [2, len(ds), len(var), 0 if W is None else 1], qs)]
-    return out[0], out[1:]
+    return [out[0], out[1:]]
+
+
+def relent_value(qst, ds, wts, var):
+    """harness-side evaluation of the weighted relative entropy sum_i w_i sum_x q_ix ln(q_ix / p_ix(var)) (no Coq model:
+    logarithms); None when a probability is too close to 0 for the plain formula to be what quara's rounding computes"""
+    A = np.asarray(qst.calc_matA(), dtype=np.float64); b = np.asarray(qst.calc_vecB(), dtype=np.float64)
+    p = A @ np.asarray(var, dtype=np.float64) + b
+    qv = np.concatenate([pr for _, pr in ds])
+    if p.min() < 1e-6 or qv.min() < 1e-6:
+        return None
+    terms = qv * np.log(qv / p)
+    m = len(ds[0][1])
+    w = np.ones(len(ds)) if wts is None else np.asarray(wts, dtype=np.float64)
+    return float(sum(w[i] * terms[m * i:m * (i + 1)].sum() for i in range(len(ds))))
+
+
+def _observe(loss, var):
+    try:
+        with warnings.catch_warnings():
+            warnings.simplefilter("ignore")
+            return [float(loss.value(var)), [float(x) for x in np.array(loss.gradient(var), dtype=float)]]
+    except Exception as e:
+        return e
 
 
 def chk_loss(ctx, case):
-    """one loss object driven through a sequence of configure / set_weight_matrices operations"""
+    """one loss object driven through a sequence of configure / set_weight_matrices (set_weights) operations"""
     kind = case["kind"]
     on_para = bool(case["on_para"])
     w, c, qst = loss_env(on_para)
     datasets = [mk_dataset(s) for s in case["datasets"]]
-    customs = [mk_custom(s) for s in case["customs"]]
+    customs = [mk_custom(s) for s in case["customs"]] if kind in (0, 1) else [[float(Fraction(x)) for x in s] for s in case["customs"]]
     var = np.array([float(Fraction(x)) for x in case["var"]])
     loss = new_loss(kind, qst.num_variables)
     zs_ops = []
     last_cfg = None
     later_set = None
     m = ctx.get_model()
+    setter = (lambda o, W: o.set_weight_matrices(W)) if kind in (0, 1) else (lambda o, W: o.set_weights(W))
+    kname = ["generic", "fast", "fast-relent", "relent"][kind]
     for k, op in enumerate(case["ops"]):
+        sub = dict(case, ops=case["ops"][:k + 1])
         if op[0] == "cfg":
             _, d, mode, ck = op
             opt = loss_option(kind, mode, customs[ck] if mode == "custom" else None)
             loss.set_from_standard_qtomography_option_data(qst, opt, datasets[d], True, False)
-            zs_ops += [0, d, {"identity": 0, "inverse_sample_covariance": 1, "inverse_unbiased_covariance": 2, "unbiased_inverse_covariance": 3}.get(mode, 10 + ck)]
+            zs_ops += [0, d, MODE_CODE.get(mode, 10 + ck)]
             last_cfg, later_set = (d, mode, ck), None
         else:
             _, ck = op
-            W = None if ck < 0 else customs[ck]
-            if kind in (0, 1):
-                loss.set_weight_matrices(W)
-            else:
-                continue
+            try:
+                setter(loss, None if ck < 0 else customs[ck])
+            except Exception as e:
+                ctx.violation("loss", S_FAST if kind == 1 else S_GENERIC if kind == 0 else S_RFAST if kind == 2 else S_RGEN,
+                              "exception:" + type(e).__name__, "the weight setter raised after %s: %r" % (zs_ops, e), sub)
+                return
             zs_ops += [1, ck, 0]
-            later_set = ("set", ck)
+            later_set = ck
         if last_cfg is None:
             continue
         # ---- observation on the re-used object
-        try:
-            with warnings.catch_warnings():
-                warnings.simplefilter("ignore")
-                obs = (float(loss.value(var)), np.array(loss.gradient(var), dtype=float))
-        except Exception as e:
-            obs = e
+        obs = _observe(loss, var)
         # ---- the same configuration on a fresh object (history independence is the PROPERTY)
         d, mode, ck = last_cfg
         fresh = new_loss(kind, qst.num_variables)
         w2, c2, qst2 = loss_env(on_para)
         fresh.set_from_standard_qtomography_option_data(qst2, loss_option(kind, mode, customs[ck] if mode == "custom" else None), datasets[d], True, False)
-        if later_set is not None and kind in (0, 1):
-            fresh.set_weight_matrices(None if later_set[1] < 0 else customs[later_set[1]])
-        try:
-            with warnings.catch_warnings():
-                warnings.simplefilter("ignore")
-                obf = (float(fresh.value(var)), np.array(fresh.gradient(var), dtype=float))
-        except Exception as e:
-            obf = e
+        fresh_ops = [0, d, MODE_CODE.get(mode, 10 + ck)]
+        if later_set is not None:
+            setter(fresh, None if later_set < 0 else customs[later_set])
+            fresh_ops += [1, later_set, 0]
+        obf = _observe(fresh, var)
         hist_dep = not same(canon(obs), canon(obf), 1e-9)
-        sub = dict(case, ops=case["ops"][:k + 1])
-        label = "%s %s" % (["generic", "fast", "fast-relent", "relent"][kind], mode if op[0] == "cfg" else "set_weight_matrices")
+        label = "%s %s" % (kname, mode if op[0] == "cfg" else "setter")
         if kind in (0, 1):
-            # ---- the Coq machines: faithful, partially fixed, fixed; for the re-used AND for the fresh object
-            fresh_ops = [0, d, {"identity": 0, "inverse_sample_covariance": 1, "inverse_unbiased_covariance": 2, "unbiased_inverse_covariance": 3}.get(mode, 10 + ck)]
-            if later_set is not None:
-                fresh_ops += [1, later_set[1], 0]
-            variants = [("faithful", 0), ("fixed", 10)] if kind == 0 else [("faithful", 1), ("extension-fixed", 12), ("weights-fixed", 13), ("fixed", 11)]
-            preds = []
-            for vname, code in variants:
-                tr_ = [int(v) for v in m.call("c13.loss_machine", [code, -1] + zs_ops)][-3:]
-                tf_ = [int(v) for v in m.call("c13.loss_machine", [code, -1] + fresh_ops)][-3:]
-                pr = model_value(ctx, qst, datasets[tr_[0]], model_weights(ctx, tr_[1], datasets, customs), var)
-                pf = model_value(ctx, qst, datasets[tf_[0]], model_weights(ctx, tf_[1], datasets, customs), var)
-                preds.append((vname, tr_, tf_, [pr[0], pr[1]], [pf[0], pf[1]]))
-            faithful, fixed = preds[0], preds[-1]
-            machines_differ = not same(faithful[3], fixed[3], 1e-7) or not same(faithful[4], fixed[4], 1e-7)
-            ctx.count("loss", key=(kind, on_para, tuple(zs_ops), tuple(case["var"])), nontrivial=True,
-                      label=label + (" [faithful != fixed machine]" if machines_differ else ""))
+            # ---- the Coq machine of the repaired code (flags 7) predicts (dataset, weights) in effect, for the re-used
+            #      and for the fresh object; the numerical model evaluates value and gradient
+            def predict(flags):
+                tr_ = [int(v) for v in m.call("c13.loss_machine", [kind, flags, -1] + zs_ops)][-3:]
+                tf_ = [int(v) for v in m.call("c13.loss_machine", [kind, flags, -1] + fresh_ops)][-3:]
+                return (tr_, tf_, model_value(ctx, qst, datasets[tr_[0]], model_weights(ctx, tr_[1], datasets, customs), var),
+                        model_value(ctx, qst, datasets[tf_[0]], model_weights(ctx, tf_[1], datasets, customs), var))
+            rep = predict(7)
+            ctx.count("loss", key=(kind, on_para, tuple(zs_ops), tuple(case["var"])), nontrivial=True, label=label)
             site = S_FAST if kind == 1 else S_GENERIC
             if isinstance(obs, Exception) or isinstance(obf, Exception):
-                ctx.violation("loss", site, "exception:" + type(obs if isinstance(obs, Exception) else obf).__name__, "value()/gradient() raised: %r / %r" % (obs, obf), sub); continue
-            o_r, o_f = [obs[0], list(obs[1])], [obf[0], list(obf[1])]
-            expl = [p for p in preds if same(o_r, p[3], 1e-7) and same(o_f, p[4], 1e-7)]
-            if not expl:
-                ctx.violation("loss", site, "loss-model-mismatch",
-                              "re-used value %.8g / fresh value %.8g fit none of the machines %s" % (obs[0], obf[0], [(p[0], round(p[3][0], 6), round(p[4][0], 6)) for p in preds]), sub)
-            elif hist_dep:
-                v = expl[0]
-                if kind == 0 or v[0] == "extension-fixed":
-                    vs, vg = S_GENERIC, "identity-keeps-stale-weights"
-                else:
-                    vs, vg = S_FAST, "stale-extended-weights"
-                ctx.violation("loss", vs, vg,
-                              "after %s the re-used %s loss evaluates dataset %d with weights '%s' (value %.6g), a fresh object configured the same way uses weights '%s' (value %.6g); "
-                              "the call means weights '%s' (value %.6g) [explained by the %s machine; weights: -1 none, k custom list k, 1000+2d+u inverse covariance of dataset d]" % (
-                                  zs_ops, "fast" if kind else "generic", v[1][0], v[1][1], obs[0], v[2][1], obf[0], fixed[1][1], fixed[3][0], v[0]), sub)
+                ctx.violation("loss", site, "exception:" + type(obs if isinstance(obs, Exception) else obf).__name__, "value()/gradient() raised: %r / %r" % (obs, obf), sub)
+                continue
+            if same(obs, rep[2], 1e-7) and same(obf, rep[3], 1e-7) and not hist_dep:
+                continue
+            # ---- deviation from the repaired model: which missing repair explains it?  (most repairs present first)
+            cands = sorted([f for f in range(7) if kind == 1 or f < 4], key=lambda f: -bin(f).count("1"))
+            expl = None
+            for f in cands:
+                pr = predict(f | (0 if kind == 1 else 4))
+                if same(obs, pr[2], 1e-7) and same(obf, pr[3], 1e-7):
+                    expl = (f, pr)
+                    break
+            what = ("after %s the re-used %s loss returns value %.8g, a fresh object configured the same way %.8g (%s); the call means dataset %d with weights '%s': value %.8g "
+                    "[weights: -1 none, k custom list k, 1000+2d+u inverse covariance of dataset d]" % (
+                        zs_ops, kname, obs[0], obf[0], "HISTORY DEPENDENT" if hist_dep else "no history dependence, but both deviate from the model of the repaired code",
+                        rep[0][0], rep[0][1], rep[2][0]))
+            if expl is None:
+                ctx.violation("loss", site, "loss-model-mismatch", what + "; no configuration machine explains this", sub)
+            else:
+                f, pr = expl
+                missing = [bit for bit in (1, 2, 4) if not f & bit and (kind == 1 or bit != 4)]
+                for bit in missing:
+                    vs, vg, slug = FIX_SIG[bit]
+                    ctx.violation("loss", vs, vg, what + "; explained by the machine of the code WITHOUT repair %s: re-used object evaluates dataset %d with weights '%s'" % (slug, pr[0][0], pr[0][1]), sub)
         else:
-            tb = [int(v) for v in m.call("c13.loss_machine", [2, -1] + zs_ops)][-3:]
-            ctx.count("loss", key=(kind, on_para, tuple(zs_ops), tuple(case["var"])), label=label)
-            if tb[0] != d or tb[1] != -1:
-                ctx.violation("loss", "loss_machine", "loss-model-mismatch", "relative entropy machine predicts %s" % tb, sub)
-            if hist_dep:
-                ctx.violation("loss", "StandardQTomographyBasedWeightedRelativeEntropy" if kind == 2 else "WeightedRelativeEntropy", "history-dependent",
-                              "re-used %r vs fresh %r" % (_brief(canon(obs)), _brief(canon(obf))), sub)
+            tb = [int(v) for v in m.call("c13.loss_machine", [3, 0, -1] + zs_ops)][-3:]
+            ta = [int(v) for v in m.call("c13.loss_machine", [2, 0, -1] + zs_ops)][-3:]
+            want = relent_value(qst, datasets[tb[0]], None if tb[1] < 0 else customs[tb[1]], var)
+            ctx.count("loss", key=(kind, on_para, tuple(zs_ops), tuple(case["var"])), nontrivial=want is not None, label=label)
+            site_g = S_RFAST if (kind == 2 and op[0] == "set") else S_RGEN
+            if isinstance(obs, Exception) or isinstance(obf, Exception):
+                ctx.violation("loss", S_RFAST if kind == 2 else S_RGEN, "extend-weights-not-refreshed" if kind == 2 else "exception:" + type(obs if isinstance(obs, Exception) else obf).__name__,
+                              "after %s value()/gradient() of the %s loss raised: %r / %r" % (zs_ops, kname, obs, obf), sub)
+                continue
+            ok_model = want is None or same(obs[0], want, 1e-7)
+            if ok_model and not hist_dep:
+                continue
+            old = relent_value(qst, datasets[ta[0]], None if ta[1] < 0 else customs[ta[1]], var)
+            by_old = old is not None and same(obs[0], old, 1e-7)
+            sig = ("extend-weights-not-refreshed" if site_g == S_RFAST else "custom-weights-ignored" if (mode == "custom" and not hist_dep) else "identity-mode-keeps-previous-weights") if by_old or hist_dep else "loss-model-mismatch"
+            ctx.violation("loss", site_g, sig,
+                          "after %s the re-used %s loss returns value %.8g, a fresh object configured the same way %.8g (%s); the call means dataset %d with weights '%s': value %s%s" % (
+                              zs_ops, kname, obs[0], obf[0], "HISTORY DEPENDENT" if hist_dep else "no history dependence", tb[0], tb[1], want,
+                              "; explained by the machine of the code before fixes c12-re-set-weights-by-mode / c12-re-fast-extend-weights" if by_old else ""), sub)
 
 
 def gen_loss_case(rng, kind, length):
     nd = 4
     datasets = [[[rng.choice([100, 400, 900, 50]), "%d/20" % rng.randint(1, 19)] for _ in range(3)] for _ in range(nd)]
-    customs = [[["%d/4" % rng.randint(4, 12), "%d/4" % rng.randint(-3, 3), "%d/4" % rng.randint(4, 12)] for _ in range(3)] for _ in range(2)]
+    if kind in (0, 1):
+        customs = [[["%d/4" % rng.randint(4, 12), "%d/4" % rng.randint(-3, 3), "%d/4" % rng.randint(4, 12)] for _ in range(3)] for _ in range(2)]
+    else:
+        customs = [["%d/4" % rng.randint(1, 16) for _ in range(3)] for _ in range(2)]
     on_para = rng.random() < 0.6
     ops = []
     for _ in range(length):
-        if rng.random() < 0.85 or not ops:
-            mode = rng.choice(MODES if kind in (0, 1) else ["identity"])
+        if rng.random() < 0.8 or not ops:
+            mode = rng.choice(MODES if kind in (0, 1) else ["identity", "custom"])
             ops.append(["cfg", rng.randrange(nd), mode, rng.randrange(2)])
         else:
             ops.append(["set", rng.choice([-1, 0, 1])])
-    return {"kind": kind, "on_para": int(on_para), "datasets": datasets, "customs": customs, "ops": ops,
-            "var": ["%d/10" % rng.randint(-5, 5) for _ in range(3 if on_para else 4)]}
+    scale = 5 if kind in (0, 1) else 3
+    var = ["%d/10" % rng.randint(-scale, scale) for _ in range(3)]
+    if not on_para:
+        var = ["7/10"] + var if kind in (2, 3) else ["%d/10" % rng.randint(-5, 5)] + var
+    return {"kind": kind, "on_para": int(on_para), "datasets": datasets, "customs": customs, "ops": ops, "var": var}
 
 
 def algo_env(tag_q):
@@ -1134,21 +1311,29 @@ def mkproj_impl(qst, tag_o):
 
 
 def chk_algo(ctx, case):
+    """one algorithm object re-used by LossMinimizationEstimator.calc_estimate over several (tomography, option, data) jobs;
+    case["user"] = [qt tag, option tag]: the object is constructed WITH a projection (that of this configuration)"""
     from quara.minimization_algorithm.projected_gradient_descent_backtracking import ProjectedGradientDescentBacktracking as A
     from quara.protocol.qtomography.standard.loss_minimization_estimator import LossMinimizationEstimator as E
     m = ctx.get_model()
     est = E()
-    algo = A()
     envs = {}
-    zs = []
-    for k, (tq, to, dspec) in enumerate(case["jobs"]):
+
+    def env(tq):
         if tq not in envs:
             envs[tq] = algo_env(tq)
-        qst = envs[tq][2]
+        return envs[tq]
+    user = case.get("user")
+    p0 = -1 if user is None else 1000 * user[0] + user[1]
+    mk = lambda: A() if user is None else A(func_proj=mkproj_impl(env(user[0])[2], user[1]))
+    algo = mk()
+    zs = []
+    for k, (tq, to, dspec) in enumerate(case["jobs"]):
+        qst = env(tq)[2]
         data = mk_dataset(dspec)
         zs += [tq, to]
-        tb = [int(v) for v in m.call("c13.algo_machine", [0, -1] + zs)][-2:]
-        tx = [int(v) for v in m.call("c13.algo_machine", [1, -1] + zs)][-2:]
+        tx = [int(v) for v in m.call("c13.algo_machine", [1, p0] + zs)][-2:]       # the repaired object (model of the code)
+        tb = [int(v) for v in m.call("c13.algo_machine", [0, p0] + zs)][-2:]       # as coded before fix pgd-cached-func-proj
         sub = dict(case, jobs=case["jobs"][:k + 1])
 
         def run(a, qs):
@@ -1160,22 +1345,96 @@ def chk_algo(ctx, case):
             except Exception as e:
                 return e
         r_hist = canon(run(algo, qst))
-        r_fresh = canon(run(A(), algo_env(tq)[2]))
-        # what the faithful machine says: a fresh algorithm object that is GIVEN the projection of the first job
-        pq, po = tb[0] // 1000, tb[0] % 1000
-        if pq not in envs:
-            envs[pq] = algo_env(pq)
-        r_model = canon(run(A(func_proj=mkproj_impl(envs[pq][2], po)), algo_env(tq)[2]))
+        r_fresh = canon(run(mk(), algo_env(tq)[2]))
+        # what each machine says: a fresh algorithm object that is GIVEN the projection named by the machine
+        def realise(tag):
+            pq, po = tag // 1000, tag % 1000
+            return canon(run(A(func_proj=mkproj_impl(env(pq)[2], po)), algo_env(tq)[2]))
+        r_model = realise(tx[0])
         hist_dep = not same(r_hist, r_fresh, 1e-7)
-        ctx.count("algo", key=tuple(zs), nontrivial=(tb[0] != tx[0]), label="job %d%s" % (min(k, 3), " [cached projection differs]" if tb[0] != tx[0] else ""))
-        fit_b, fit_x = same(r_hist, r_model, 1e-7), same(r_hist, r_fresh, 1e-7)
-        if not fit_b and not fit_x:
-            ctx.violation("algo", S_ALGO, "algo-model-mismatch", "re-used algorithm result %s fits neither the machine (projection of job 0: %s) nor a fresh object (%s)" % (_brief(r_hist), _brief(r_model), _brief(r_fresh)), sub)
-        elif hist_dep and fit_b and tb[0] != tx[0]:
+        # the projection closure itself, on probe vectors (an interior estimate would hide a wrong projection)
+        want_proj = mkproj_impl(env(tx[0] // 1000)[2], tx[0] % 1000)
+        nv = qst.num_variables
+        for j in range(3):
+            v = np.array([((7 * j + 3 * i + k) % 11 - 5) / 4.0 for i in range(nv)])
+            def ev(f):
+                try:
+                    with warnings.catch_warnings():
+                        warnings.simplefilter("ignore")
+                        return canon(np.array(f(v.copy())))
+                except Exception as e:
+                    return canon(e)
+            pa, pw = ev(algo.func_proj), ev(want_proj)
+            if not same(pa, pw, 1e-9):
+                old = tb[0] != tx[0] and same(pa, ev(mkproj_impl(env(tb[0] // 1000)[2], tb[0] % 1000)), 1e-9)
+                ctx.violation("algo", S_ALGO, "cached-func-proj" if old else "algo-model-mismatch",
+                              "after the configuration for (qt %d, constraints %d) algo.func_proj(%s) = %s, the projection of this configuration gives %s%s" % (
+                                  tq, to, [float(x) for x in v], _brief(pa), _brief(pw), " [it is still the projection of the first job: the machine of the code before fix pgd-cached-func-proj]" if old else ""), sub)
+                break
+        ctx.count("algo", key=(p0,) + tuple(zs), nontrivial=(tb[0] != tx[0]) or user is not None,
+                  label="job %d%s%s" % (min(k, 3), " user projection" if user is not None else "", " [projection differs from the first job's]" if tb[0] != tx[0] else ""))
+        if same(r_hist, r_model, 1e-7) and not hist_dep:
+            continue
+        r_old = realise(tb[0]) if tb[0] != tx[0] else r_model
+        if tb[0] != tx[0] and same(r_hist, r_old, 1e-7):
             ctx.violation("algo", S_ALGO, "cached-func-proj",
-                          "algorithm object re-used for (qt %d, constraints %d) still projects with the closure built for (qt %d, constraints %d): estimate %s, fresh object %s" % (tq, to, pq, po, _brief(r_hist), _brief(r_fresh)), sub)
+                          "algorithm object re-used for (qt %d, constraints %d) still projects with the closure built for (qt %d, constraints %d) "
+                          "[the machine of the code before fix pgd-cached-func-proj]: estimate %s, fresh object %s" % (tq, to, tb[0] // 1000, tb[0] % 1000, _brief(r_hist), _brief(r_fresh)), sub)
         elif hist_dep:
             ctx.violation("algo", S_ALGO, "history-dependent-unexplained", "re-used %s vs fresh %s" % (_brief(r_hist), _brief(r_fresh)), sub)
+        else:
+            ctx.violation("algo", S_ALGO, "algo-model-mismatch", "re-used algorithm result %s differs from the result with the projection the machine names (%d): %s" % (_brief(r_hist), tx[0], _brief(r_model)), sub)
+
+
+def chk_estimate(ctx, case):
+    """LossMinimizationEstimator.calc_estimate_sequence with ONE loss object per class and ONE algorithm object re-used over several
+    calls (weighting mode, constraint option and datasets change from call to call): every estimate must be the estimate that
+    fresh objects give for that dataset alone (C13_estimation_history_independent: est_step_gp / est_step_fp = est_spec)"""
+    from quara.minimization_algorithm.projected_gradient_descent_backtracking import ProjectedGradientDescentBacktracking as A
+    from quara.protocol.qtomography.standard.loss_minimization_estimator import LossMinimizationEstimator as E
+    on_para = bool(case["on_para"])
+    w, c, qst = loss_env(on_para)
+    datasets = [mk_dataset(sp) for sp in case["datasets"]]
+    customs = [mk_custom(sp) for sp in case["customs"]]
+    losses = {}
+    algo = A()
+    est = E()
+    for k, (kind, mode, ck, to, ds) in enumerate(case["calls"]):
+        sub = dict(case, calls=case["calls"][:k + 1])
+        if kind not in losses:
+            losses[kind] = new_loss(kind, qst.num_variables)
+        opt = lambda: loss_option(kind, mode, customs[ck] if mode == "custom" else None)
+        try:
+            with warnings.catch_warnings():
+                warnings.simplefilter("ignore")
+                seq = [np.array(v) for v in est.calc_estimate_sequence(qst, [datasets[d] for d in ds], losses[kind], opt(), algo, algo_option(to)).estimated_var_sequence]
+        except Exception:
+            # the sequence call raised for ONE of its datasets (fresh objects may raise for it as well): the objects stay in use,
+            # the datasets are now estimated one by one so that every outcome can be attributed
+            seq = []
+            for d in ds:
+                try:
+                    with warnings.catch_warnings():
+                        warnings.simplefilter("ignore")
+                        seq.append(np.array(est.calc_estimate(qst, datasets[d], losses[kind], opt(), algo, algo_option(to)).estimated_var))
+                except Exception as e:
+                    seq.append(e)
+        for i, d in enumerate(ds):
+            try:
+                with warnings.catch_warnings():
+                    warnings.simplefilter("ignore")
+                    w2, c2, qst2 = loss_env(on_para)
+                    fr = np.array(E().calc_estimate(qst2, datasets[d], new_loss(kind, qst2.num_variables), opt(), A(), algo_option(to)).estimated_var)
+            except Exception as e:
+                fr = e
+            got = seq[i]
+            ctx.count("estimate", key=(on_para, k, i, kind, mode, to, repr(case["datasets"][d])), nontrivial=not isinstance(fr, Exception),
+                      label="%s %s constraints=%d%s" % (["generic", "fast"][kind], mode, to, " (first call)" if k == 0 and i == 0 else ""))
+            if not same(canon(got), canon(fr), 1e-7):
+                ctx.violation("estimate", "LossMinimizationEstimator.calc_estimate_sequence", "history-dependent",
+                              "call %d (loss %s, mode %s, constraints %d), dataset %d of the sequence: estimate with the re-used loss/algorithm objects %s, with fresh objects %s" % (
+                                  k, ["generic", "fast"][kind], mode, to, i, _brief(canon(got)), _brief(canon(fr))), sub)
+                return
 
 
 def sub_loss(ctx):
@@ -1190,17 +1449,28 @@ def sub_loss(ctx):
         jobs = []
         for _ in range(rng.randint(2, 4)):
             jobs.append([0 if rng.random() < 0.8 else 1, rng.randrange(4), [[rng.choice([100, 400]), "%d/20" % rng.choice([1, 2, 18, 19, 10, 3])] for _ in range(3)]])
-        ac.append({"jobs": jobs})
+        ac.append({"jobs": jobs} if rng.random() < 0.75 else {"jobs": jobs, "user": [jobs[0][0], rng.randrange(4)]})
     ctx.sample("algo", ac[0])
     ctx.run_cases("algo", chk_algo, ac)
+    ec = []
+    for _ in range(ctx.n(3, 20)):
+        base = gen_loss_case(rng, 0, 1)
+        calls = [[rng.choice([0, 1]), rng.choice(MODES), rng.randrange(2), rng.choice([0, 1, 3]), [rng.randrange(4) for _ in range(rng.randint(1, 2))]] for _ in range(rng.randint(2, 3))]
+        ec.append({"on_para": base["on_para"], "datasets": base["datasets"], "customs": base["customs"], "calls": calls})
+    # fixed case: a sequence in which the optimiser raises for one dataset (with fresh objects too) - attribution per dataset
+    ec.insert(0, {"on_para": 1, "datasets": [[[900, "13/20"], [900, "16/20"], [50, "1/20"]], [[50, "13/20"], [400, "11/20"], [400, "3/20"]]],
+                  "customs": [[["10/4", "2/4", "11/4"]] * 3], "calls": [[0, "inverse_sample_covariance", 0, 3, [1, 0]], [1, "identity", 0, 1, [1]]]})
+    ctx.sample("estimate", ec[0])
+    ctx.run_cases("estimate", chk_estimate, ec)
 
 
 # ------------------------------------------------------------------------------------------------ witnesses of the refuted theorems
 def chk_witness(ctx, case):
+    """the witnesses of the ..._refuted theorems (about the code before the fixes): on the repaired code they must not reproduce"""
     name = case["name"]
     ctx.count("witness", key=name, label=name)
     if name == "mprocess-mutates-argument":
-        # C13_mprocess_proj_eq_mutates_argument_refuted: d2 = 4, two outcomes, var_i = i/10, entry 1 changes
+        # C13_mprocess_proj_eq_mutates_argument_refuted / C13_wit_fixed: d2 = 4, two outcomes, var_i = i/10
         w = World(); c = w.csys(((0,), 0))
         var = np.arange(32, dtype=np.float64) / 10
         q()["mp"].MProcess.calc_proj_eq_constraint_with_var(c, var, on_para_eq_constraint=False)
@@ -1224,7 +1494,7 @@ def sub_witness(ctx):
 
 
 SUBS = [("cache", sub_cache), ("heap", sub_heap), ("basis", sub_basis), ("loss", sub_loss), ("witness", sub_witness), ("history", sub_history)]
-FNS = {"cache": chk_cache, "heap": chk_heap, "basis": chk_basis, "copy": chk_copy, "loss": chk_loss, "algo": chk_algo,
+FNS = {"cache": chk_cache, "heap": chk_heap, "basis": chk_basis, "copy": chk_copy, "loss": chk_loss, "algo": chk_algo, "estimate": chk_estimate,
        "witness": chk_witness, "history": chk_history}
 
 
@@ -1233,8 +1503,10 @@ def run(ctx):
                 "built from small rationals (physical and non-physical, unequal outcome counts, asymmetric); every result compared (1e-10) with the same "
                 "call on fresh deep copies in a fresh world, SHA-1 byte snapshots of every pool object and basis before/after; non-trivial = the call "
                 "returned a value (error branches are compared but counted trivial). cache: get/delete sequences with the Coq machine alongside. "
-                "loss/algo: re-configuration sequences over 4 datasets x 5 weighting modes, non-trivial = faithful and fixed machine give "
-                "numerically distinct predictions or agree symbolically. Failing histories are shrunk by greedy op removal.")
+                "loss/algo: re-configuration sequences over 4 datasets x 5 weighting modes (2 for relative entropy) with setter calls in between; "
+                "every step evaluated on the re-used object, on a fresh object and by the Coq machine of the repaired code + numerical model; "
+                "algo non-trivial = the job needs another projection than the first job, or the object carries a user projection. "
+                "Failing histories are shrunk by greedy op removal.")
     flow.standard_run(ctx, SUBS)
 
 
